@@ -1,4 +1,4 @@
-(* Expire/ProofsCmd.v — every write command preserves the relation R and replies alike on R-related stores (DEL: state only);
+(* Expire/ProofsCmd.v — every write command preserves the relation R and replies alike on R-related stores;
    reads agree on R-related stores. *)
 From ZV Require Import Common.Bytes Common.BytesFacts Expire.Consts Expire.Model Expire.Proofs.
 From ZV Require Import Expire.ProofsRel.
@@ -503,19 +503,25 @@ Section Cmds.
     - destruct (D eq_refl) as [[-> | ->] [-> | ->]]; try destruct ov1; try destruct ov2; simpl; auto.
   Qed.
 
-  Lemma R_del ks : forall s1 s2, RR s1 s2 -> RR (fst (do_del s1 ks)) (fst (do_del s2 ks)).
+  Lemma P_del ks : P (CDel ks).
   Proof.
-    intros s1 s2 H. unfold do_del. cbn [fst]. revert s1 s2 H.
-    induction (dedup ks) as [|k l IH]; intros s1 s2 H; simpl; auto. apply IH. now apply R_kv_del.
+    intros s1 s2 H. cbn [step]. unfold do_del. cbn [fst snd]. split.
+    - f_equal. f_equal. f_equal. apply filter_ext. intros k.
+      destruct (kv_cases _ _ k H) as (h1 & h2 & ov1 & ov2 & x1 & x2 & E1 & E2 & C & _). rewrite E1, E2.
+      assert (Q : forall (ov : option bytes) x, match ov, x with Some _, false => true | _, _ => false end =
+                                                 match kv_cur ov x with Some _ => true | None => false end).
+      { intros [b|] [|]; reflexivity. }
+      transitivity (match kv_cur ov1 x1 with Some _ => true | None => false end).
+      + destruct ov1, x1; reflexivity.
+      + rewrite C. destruct ov2, x2; reflexivity.
+    - revert s1 s2 H. induction (dedup ks) as [|k l IH]; intros s1 s2 H; simpl; auto. apply IH. now apply R_kv_del.
   Qed.
 
-  Definition is_del (c : cmd) : bool := match c with CDel _ => true | _ => false end.
-
-  Theorem step_R c : is_del c = false -> P c.
+  Theorem step_R c : P c.
   Proof.
-    destruct c; intros D; try discriminate.
+    destruct c.
     - apply P_set. - apply P_setex. - apply P_setnx. - apply P_getset. - apply P_mset.
-    - apply P_incrby. - apply P_append. - apply P_setrange.
+    - apply P_incrby. - apply P_append. - apply P_setrange. - apply P_del.
     - intros s1 s2 H. cbn [step]. unfold do_expire. destruct t; [apply P_kv_set_expire | apply P_coll_set_expire ..]; auto.
     - intros s1 s2 H. cbn [step]. unfold do_persist. destruct t; [apply P_kv_set_expire | apply P_coll_set_expire ..]; auto.
     - intros s1 s2 H. cbn [step]. destruct t; [simpl; auto | apply P_coll_clear ..]; auto.
@@ -528,11 +534,7 @@ Section Cmds.
     - apply P_zremrangebyscore. - apply P_lpush. - apply P_lpop.
   Qed.
   Theorem step_R_state c : forall s1 s2, RR s1 s2 -> RR (fst (step Compact s1 ts c)) (fst (step Compact s2 ts c)).
-  Proof.
-    intros s1 s2 H. destruct (is_del c) eqn:D.
-    - destruct c; try discriminate. cbn [step]. now apply R_del.
-    - now apply step_R.
-  Qed.
+  Proof. intros s1 s2 H. now apply step_R. Qed.
 
   (* ---------- reads (the section's time is the read clock here) ---------- *)
   Lemma read_coll_noe s t k : noe s t k -> read_coll Compact s ts t k = absent_obs.
